@@ -32,6 +32,11 @@ def run(tier, seed, t0):
     def rb(c):
         i = c.idx % 1000
         return {"cmd": f"/verif/wl-core/target/release/sys timed --from {i} --to {i+1}"}
+    from checks import common_hook as ch
+    try:
+        cases += ch.cases(PID, seed, tier, 8 if tier != "thorough" else 24)
+    except vlib.BuildError as e:
+        c = vlib.Case(7_000_000); c.engine = "LD_PRELOAD interposition"; c.verdict = "inconclusive"; c.sig = "harness/hook-dylib-build-failed"; c.detail = str(e); cases.append(c)
     return vlib.finish(PID, tier, seed, "exploration", cases, rule=RULE, t0=t0, replay_builder=rb,
                        assumptions=["300 ms slack on the fastest of 3 attempts", "core entry points with real libc inner calls; the interposed libc symbols of the hook dylib forward to the same entry points"])
 
